@@ -40,6 +40,13 @@ def build(job):
         m.st(rso.square(xs[0]) <= xs[nc - 1] + 3)
     elif cone == 'exp':
         m.st(rso.exp(xs[0]) <= xs[nc - 1] + 4)
+    elif cone.startswith('ro-'):
+        # a robust row: the compiled program is the counterpart, whose cones sit on multipliers of the dualised set
+        # (cone heads bounded / free as the dual construction left them - each interface must read the same cones)
+        z = m.rvar(2)
+        sets = {'sumsqr': rso.sumsqr(z) <= 4, 'quad': rso.quad(z, np.array([[1.0, 0.5], [0.5, 1.0]])) <= 1,
+                'norm2r2': rso.norm(z) <= 2, 'square': rso.square(z) <= 1}
+        m.st((xs[0] * z[0] + xs[nc - 1] * z[1] - xs[nc - 1] <= 6).forall(sets[cone[3:]]))
     return m, xs
 
 
